@@ -110,6 +110,33 @@ def run(ctx: Ctx):
             pre = [c for c in walk_no_nested(f.node) if isinstance(c, ast.Call) and (dotted(c.func) or "").split(".")[-1] not in ("isinstance", "len", "Comment", "ureg", "str") and not (dotted(c.func) or "").split(".")[-1].startswith("_") and any(isinstance(x, ast.Attribute) and x.attr == "text" and "Comment" not in norm(c.func) for a in list(c.args) for x in ast.walk(a))]
             if f.qualname == "get_unit_and_comment_from_assignment" or pre:
                 ctx.check(not pre, "R17.a", f.key("no-other-consumer"), "comment text is only probed as a unit and stored", f"{f.qualname} passes comment text to {[norm(c.func) for c in pre]}: every extra consumer of free text is a new way for a comment to change or block loading", f.where(pre[0]) if pre else f.where())
+    # free text as a *format template*: a logging call with extra positional arguments %-formats its first argument
+    # (structlog's filtering logger: `event % args`), `str % x` and `str.format` do the same - a `%` or a brace in an
+    # annotation then raises ("unsupported format character") and the text of a comment decides whether the model loads
+    LOG_LEVELS = {"debug", "info", "warning", "warn", "error", "exception", "critical", "msg", "log"}
+    n_fmt = 0
+    for short in scope + ["codegen/ode.py", "save.py"]:
+        for f in sm.funcs_in(short):
+            for c in walk_no_nested(f.node):
+                tmpl = None
+                if isinstance(c, ast.Call) and isinstance(c.func, ast.Attribute) and c.func.attr in LOG_LEVELS and "log" in norm(c.func.value).lower() and len(c.args) >= 2:
+                    tmpl, how = c.args[0], f"`{norm(c.func)}(template, *args)` %-formats its first argument"
+                elif isinstance(c, ast.BinOp) and isinstance(c.op, ast.Mod) and isinstance(c.left, ast.JoinedStr):
+                    tmpl, how = c.left, "`template % args`"
+                elif isinstance(c, ast.Call) and isinstance(c.func, ast.Attribute) and c.func.attr in ("format", "format_map") and isinstance(c.func.value, ast.JoinedStr):
+                    tmpl, how = c.func.value, "`template.format(...)`"
+                if tmpl is None:
+                    continue
+                n_fmt += 1
+                dyn = [x for x in ast.walk(tmpl) if isinstance(x, ast.FormattedValue)] if isinstance(tmpl, ast.JoinedStr) else ([] if isinstance(tmpl, ast.Constant) else [tmpl])
+                ctx.check(
+                    not dyn,
+                    "R17.a",
+                    f.key(f"format-template::{norm(tmpl)[:40]}"),
+                    "the format template is a literal",
+                    f"{f.qualname}: {how}, and the template `{norm(tmpl)[:80]}` interpolates run-time text ({', '.join(sorted({norm(getattr(x, 'value', x)) for x in dyn}))[:80]}) before it is used as a template: a `%` (or brace) in a unit string or comment raises while loading",
+                    f.where(c),
+                )
     # regular expressions in the modules that see free text
     n_rx = 0
     for short in scope + ["codegen/ode.py"]:
@@ -204,6 +231,8 @@ def run(ctx: Ctx):
         reads = [n for n in ast.walk(mod) if isinstance(n, ast.Attribute) and n.attr in ANNOT and isinstance(n.ctx, ast.Load)]
         # ... nor the comment text of the model as a whole (ODE.text / ODE.comments)
         reads += [n for n in ast.walk(mod) if isinstance(n, ast.Attribute) and n.attr in ("text", "comments") and isinstance(n.ctx, ast.Load) and norm(n.value).split(".")[-1] == "ode"]
+        # ... nor through getattr / attrgetter with the attribute's name as a literal
+        reads += [n for n in ast.walk(mod) if isinstance(n, ast.Call) and (dotted(n.func) or "").split(".")[-1] in ("getattr", "attrgetter", "hasattr") and any(isinstance(a, ast.Constant) and isinstance(a.value, str) and a.value.split(".")[-1] in ANNOT for a in n.args)]
         ctx.check(not reads, "R17.c", f"{sm.rel(short)}::annotation-reads", "no annotation is read", f"{short} reads {sorted({norm(r) for r in reads})}: generated numerics / layout can depend on a unit, description or comment", f"{sm.rel(short)}:{reads[0].lineno}" if reads else sm.rel(short))
     # ode.py / atoms.py / ode_component.py: only pass-through copies
     for short in ("ode.py", "atoms.py", "ode_component.py"):
